@@ -182,8 +182,9 @@ class Ctx:
         }
         if self.notes:
             evidence["coverage"]["notes"] = self.notes
-        EVIDENCE.mkdir(exist_ok=True)
-        (EVIDENCE / f"{self.prop}.json").write_text(json.dumps(evidence, indent=1, default=str))
+        if not os.environ.get("VERIF_NO_EVIDENCE") and self.src == "/repo/src" or os.environ.get("VERIF_FORCE_EVIDENCE"):
+            EVIDENCE.mkdir(exist_ok=True)
+            (EVIDENCE / f"{self.prop}.json").write_text(json.dumps(evidence, indent=1, default=str))
         print(
             f"[{self.prop}] tier={self.tier} rules={len(self.rules)} instances={instances} "
             f"obligations={obligations} discharged={discharged} known={sum(len(v) for v in listed.values())} "
